@@ -399,6 +399,50 @@ namespace TPV.Geom
 set_option linter.unusedSectionVars false
 variable {K : Type} [Field K] [LinearOrder K] [IsStrictOrderedRing K]
 
+/-- the boundary set only depends on what the expression reads (same statement as `mem_congr`) -/
+theorem bdryMem_congr (τ : Tol K) (D : Dom K) : ∀ (p ρ p' ρ' : Env K), EnvAgree D p ρ p' ρ' →
+    (bdryMem τ D p ρ ↔ bdryMem τ D p' ρ') := by
+  induction D with
+  | interval v lb ub =>
+    intro p ρ p' ρ' h; obtain ⟨h1, h2, h3⟩ := h; simp only [bdryMem, bdryContains, containsAux, h1, h2, h3]
+  | par v o c1 c2 =>
+    intro p ρ p' ρ' h; obtain ⟨h1, h2, h3, h4⟩ := h; simp only [bdryMem, bdryContains, containsAux, h1, h2, h3, h4]
+  | tri v o c1 c2 =>
+    intro p ρ p' ρ' h; obtain ⟨h1, h2, h3, h4⟩ := h; simp only [bdryMem, bdryContains, containsAux, h1, h2, h3, h4]
+  | circle v c r =>
+    intro p ρ p' ρ' h; obtain ⟨h1, h2, h3⟩ := h; simp only [bdryMem, bdryContains, containsAux, h1, h2, h3]
+  | sphere v c r =>
+    intro p ρ p' ρ' h; obtain ⟨h1, h2, h3⟩ := h; simp only [bdryMem, bdryContains, containsAux, h1, h2, h3]
+  | union a b iha ihb =>
+    intro p ρ p' ρ' h
+    simp only [bdryMem, iha _ _ _ _ h.1, ihb _ _ _ _ h.2, mem_congr a _ _ _ _ h.1, mem_congr b _ _ _ _ h.2]
+  | cut a b iha ihb =>
+    intro p ρ p' ρ' h
+    simp only [bdryMem, iha _ _ _ _ h.1, ihb _ _ _ _ h.2, mem_congr a _ _ _ _ h.1, mem_congr b _ _ _ _ h.2]
+  | inter a b iha ihb =>
+    intro p ρ p' ρ' h
+    simp only [bdryMem, iha _ _ _ _ h.1, ihb _ _ _ _ h.2, mem_congr a _ _ _ _ h.1, mem_congr b _ _ _ _ h.2]
+  | prod a b iha ihb =>
+    intro p ρ p' ρ' h
+    simp only [bdryMem, iha _ _ _ _ h.1, ihb _ _ _ _ h.2, mem_congr a _ _ _ _ h.1, mem_congr b _ _ _ _ h.2]
+  | translate v d t ih =>
+    intro p ρ p' ρ' h
+    obtain ⟨h1, h2, h3⟩ := h
+    simp only [bdryMem, h1, h2]
+    have e1 : ∀ q : List K, bdryMem τ d [(v, q)] (p.filter (fun b => b.1 != v) ++ ρ) ↔
+        bdryMem τ d [(v, q)] (p'.filter (fun b => b.1 != v) ++ ρ') := fun q => ih _ _ _ _ (h3 q)
+    simp only [e1]
+  | rotate v d m c ih =>
+    intro p ρ p' ρ' h
+    obtain ⟨h1, h2, h3, h4⟩ := h
+    simp only [bdryMem, h1, h2, h3]
+    have e1 : ∀ q : List K, bdryMem τ d [(v, q)] (p.filter (fun b => b.1 != v) ++ ρ) ↔
+        bdryMem τ d [(v, q)] (p'.filter (fun b => b.1 != v) ++ ρ') := fun q => ih _ _ _ _ (h4 q)
+    simp only [e1]
+  | bdry d _ => intro p ρ p' ρ' _; simp [bdryMem]
+  | bdryL d _ => intro p ρ p' ρ' _; simp [bdryMem]
+  | bdryR d _ => intro p ρ p' ρ' _; simp [bdryMem]
+
 theorem bdryMem_translate (τ : Tol K) (v : String) (d : Dom K) (t : PFun K) (ρ : Env K) (q p : List K) (ht : t.indep v)
     (hm : bdryMem τ d [(v, q)] ρ) (hq : translatePt q (t.f ρ) = some p) : bdryMem τ (.translate v d t) [(v, p)] ρ := by
   unfold translatePt at hq
@@ -462,16 +506,26 @@ inductive BSamples (τ : Tol K) : Dom K → Env K → Env K → Prop
       BSamples τ d ρ [(v, q)] → translatePt q (t.f ρ) = some p → BSamples τ (.translate v d t) ρ [(v, p)]
   | rotate (v : String) (d : Dom K) (m c : PFun K) (ρ : Env K) (q p : List K) :
       BSamples τ d ρ [(v, q)] → rotatePt q (m.f ρ) (c.f ρ) = some p → BSamples τ (.rotate v d m c) ρ [(v, p)]
+  /-- `ProductDomain.boundary = (∂a × b) ∪ (a × ∂b)`, first part: second factor sampled inside, first factor on its boundary -/
+  | prodA (a b : Dom K) (ρ pa pb : Env K) :
+      Samples τ b ρ pb → BSamples τ a (pb ++ ρ) pa → BSamples τ (.prod a b) ρ (pa ++ pb)
+  /-- second part: second factor sampled on its boundary, first factor inside -/
+  | prodB (a b : Dom K) (ρ pa pb : Env K) :
+      BSamples τ b ρ pb → Samples τ a (pb ++ ρ) pa → BSamples τ (.prod a b) ρ (pa ++ pb)
 
 /-- side conditions for boundary sampling at the row `ρ` -/
-def BSampleWF : Dom K → Env K → Prop
+def BSampleWF (τ : Tol K) : Dom K → Env K → Prop
   | .union a b, ρ => a.solid ∧ b.solid ∧ ∀ pts, NonDeg (.union a b) pts ρ
   | .cut a b, ρ => a.solid ∧ b.solid ∧ ∀ pts, NonDeg (.cut a b) pts ρ
   | .inter a b, ρ => a.solid ∧ b.solid ∧ ∀ pts, NonDeg (.inter a b) pts ρ
-  | .translate v d t, ρ => BSampleWF d ρ ∧ t.indep v
-  | .rotate v d m c, ρ => BSampleWF d ρ ∧ m.indep v ∧ c.indep v ∧
+  | .translate v d t, ρ => BSampleWF τ d ρ ∧ t.indep v
+  | .rotate v d m c, ρ => BSampleWF τ d ρ ∧ m.indep v ∧ c.indep v ∧
       ∀ m00 m01 m10 m11, m.f ρ = [m00, m01, m10, m11] → m00 * m11 - m01 * m10 ≠ 0
-  | .prod _ _, _ => False
+  | .prod a b, ρ =>
+    (SampleWF τ b ρ ∧ ∀ pb, Samples τ b ρ pb → (BSampleWF τ a (pb ++ ρ) ∧ ∀ pa, BSamples τ a (pb ++ ρ) pa →
+        EnvAgree a pa (pb ++ ρ) (pa ++ pb) ρ ∧ EnvAgree b pb ρ (pa ++ pb) ρ)) ∧
+    (BSampleWF τ b ρ ∧ ∀ pb, BSamples τ b ρ pb → (SampleWF τ a (pb ++ ρ) ∧ ∀ pa, Samples τ a (pb ++ ρ) pa →
+        EnvAgree a pa (pb ++ ρ) (pa ++ pb) ρ ∧ EnvAgree b pb ρ (pa ++ pb) ρ))
   | .bdry _, _ => False
   | .bdryL _, _ => False
   | .bdryR _, _ => False
@@ -483,7 +537,7 @@ def BSampleWF : Dom K → Env K → Prop
     (`prim_bdry_sample_onBdry`) and hence in the tolerance set; for Boolean nodes it satisfies the set algebra of
     the boundary (with the exact denotation `mem` of the operands); for moved domains it is the moved point. -/
 theorem bsamples_bdryMem (L : TranscLaws K) (τ : Tol K) (hτ : τ.ok) (D : Dom K) (ρ pts : Env K) (h : BSamples τ D ρ pts) :
-    BSampleWF D ρ → bdryMem τ D pts ρ := by
+    BSampleWF τ D ρ → bdryMem τ D pts ρ := by
   induction h with
   | prim D ρ tape pts htape hs =>
     intro hwf
@@ -512,6 +566,18 @@ theorem bsamples_bdryMem (L : TranscLaws K) (τ : Tol K) (hτ : τ.ok) (D : Dom 
     intro hwf; exact bdryMem_translate τ v d t ρ q p hwf.2 (ih hwf.1) hq
   | rotate v d m c ρ q p _ hq ih =>
     intro hwf; exact bdryMem_rotate τ v d m c ρ q p hwf.2.1 hwf.2.2.1 hwf.2.2.2 (ih hwf.1) hq
+  | prodA a b ρ pa pb hsb hsa iha =>
+    intro hwf
+    obtain ⟨⟨wb, hall⟩, _⟩ := hwf
+    obtain ⟨wa, hag⟩ := hall pb hsb
+    obtain ⟨ea, eb⟩ := hag pa hsa
+    exact Or.inl ⟨(bdryMem_congr τ a _ _ _ _ ea).1 (iha wa), (mem_congr b _ _ _ _ eb).1 (samples_mem L τ b ρ pb hsb wb)⟩
+  | prodB a b ρ pa pb hsb hsa ihb =>
+    intro hwf
+    obtain ⟨_, wb, hall⟩ := hwf
+    obtain ⟨wa, hag⟩ := hall pb hsb
+    obtain ⟨ea, eb⟩ := hag pa hsa
+    exact Or.inr ⟨(mem_congr a _ _ _ _ ea).1 (samples_mem L τ a (pb ++ ρ) pa hsa wa), (bdryMem_congr τ b _ _ _ _ eb).1 (ihb wb)⟩
 
 end bsamples
 end TPV.Geom
@@ -593,4 +659,131 @@ theorem n1BdryLoop_sound (propA propB : Nat → List α) (ok : α → Bool) (P :
           · subst hq; exact hinv p (List.of_mem_zip hz).1
       · simp at h
 end
+end TPV.Geom
+
+namespace TPV.Geom
+set_option linter.unusedSectionVars false
+variable {K : Type} [Field K] [LinearOrder K] [IsStrictOrderedRing K]
+
+/-! ## a syntactic criterion for `SampleWF` of products -/
+
+/-- Boolean operands live in the same variables and a motion node moves the variable of its inner domain (the
+    constructors assert `domain_a.space == domain_b.space`; Translate / Rotate keep the inner space) -/
+def Dom.Uniform : Dom K → Prop
+  | .interval .. | .par .. | .tri .. | .circle .. | .sphere .. => True
+  | .union a b | .cut a b | .inter a b => a.Uniform ∧ b.Uniform ∧ b.vars = a.vars
+  | .prod a b => a.Uniform ∧ b.Uniform
+  | .translate v d _ | .rotate v d _ _ => d.Uniform ∧ d.vars = [v]
+  | .bdry _ | .bdryL _ | .bdryR _ => False
+
+theorem primSample_keys [Transc K] (D : Dom K) (ρ : Env K) (tape : List K) (pts : Env K) (hu : D.Uniform)
+    (h : primSample D ρ tape = some pts) : pts.map Prod.fst = D.vars := by
+  cases D with
+  | interval v lb ub =>
+    rcases tape with _ | ⟨t, _ | ⟨t2, rest⟩⟩ <;> simp only [primSample] at h <;> try (simp at h)
+    split at h <;> try (simp at h)
+    subst h; rfl
+  | par v o c1 c2 =>
+    rcases tape with _ | ⟨s, _ | ⟨t, _ | ⟨t3, rest⟩⟩⟩ <;> simp only [primSample] at h <;> try (simp at h)
+    split at h <;> try (simp at h)
+    subst h; rfl
+  | tri v o c1 c2 =>
+    rcases tape with _ | ⟨s, _ | ⟨t, _ | ⟨t3, rest⟩⟩⟩ <;> simp only [primSample] at h <;> try (simp at h)
+    split at h <;> try (simp at h)
+    subst h; rfl
+  | circle v c r =>
+    rcases tape with _ | ⟨s, _ | ⟨t, _ | ⟨t3, rest⟩⟩⟩ <;> simp only [primSample] at h <;> try (simp at h)
+    split at h <;> try (simp at h)
+    subst h; rfl
+  | sphere v c r =>
+    rcases tape with _ | ⟨s, _ | ⟨t, _ | ⟨t3, _ | ⟨t4, rest⟩⟩⟩⟩ <;> simp only [primSample] at h <;> try (simp at h)
+    split at h <;> try (simp at h)
+    subst h; rfl
+  | bdry d => exact absurd hu (by simp [Dom.Uniform])
+  | bdryL d => exact absurd hu (by simp [Dom.Uniform])
+  | bdryR d => exact absurd hu (by simp [Dom.Uniform])
+  | _ => simp [primSample] at h
+
+/-- the coordinates a sample binds are exactly the variables of the expression -/
+theorem samples_keys [Transc K] (τ : Tol K) (D : Dom K) (ρ pts : Env K) (h : Samples τ D ρ pts) :
+    D.Uniform → pts.map Prod.fst = D.vars := by
+  induction h with
+  | prim D ρ tape pts _ hs => intro hu; exact primSample_keys D ρ tape pts hu hs
+  | cut a b ρ pts _ _ ih => intro hu; exact ih hu.1
+  | inter a b ρ pts _ _ ih => intro hu; exact ih hu.1
+  | unionA a b ρ pts _ ih => intro hu; exact ih hu.1
+  | unionB a b ρ pts _ ih => intro hu; rw [ih hu.2.1]; exact hu.2.2
+  | translate v d t ρ q p _ _ _ => intro hu; simp [Dom.vars, hu.2]
+  | rotate v d m c ρ q p _ _ _ => intro hu; simp [Dom.vars, hu.2]
+  | prod a b ρ pa pb _ _ ihb iha => intro hu; simp [Dom.vars, List.map_append, iha hu.1, ihb hu.2]
+
+theorem env_get_of_key (p : Env K) (v : String) (h : v ∈ p.map Prod.fst) : ∃ x, p.get v = some x := by
+  unfold Env.get
+  induction p with
+  | nil => simp at h
+  | cons hd tl ih =>
+    obtain ⟨k, val⟩ := hd
+    simp only [List.lookup]
+    by_cases hk : (v == k) = true
+    · simp [hk]
+    · simp only [hk]
+      have : v ≠ k := by simpa using hk
+      simp only [List.map_cons, List.mem_cons] at h
+      rcases h with h | h
+      · exact absurd h this
+      · exact ih h
+
+theorem env_get_none_of_not_key (p : Env K) (v : String) (h : v ∉ p.map Prod.fst) : p.get v = none := by
+  unfold Env.get
+  induction p with
+  | nil => rfl
+  | cons hd tl ih =>
+    obtain ⟨k, val⟩ := hd
+    simp only [List.map_cons, List.mem_cons, not_or] at h
+    have hk : (v == k) = false := by simpa using h.1
+    simp only [List.lookup, hk]
+    exact ih h.2
+
+/-- **packaged criterion**: a product `a × b` is well-formed for sampling at `ρ` as soon as both factors are
+    (the first one at every row extended by a sample of the second), the factors live in disjoint variables, all
+    leaves read the variables of their own factor, and the second factor's parameter functions do not look at the
+    first factor's coordinates. -/
+theorem sampleWF_prod_of [Transc K] (τ : Tol K) (a b : Dom K) (ρ : Env K) (ua : a.Uniform) (ub : b.Uniform)
+    (hla : ∀ v ∈ a.leafVars, v ∈ a.vars) (hlb : ∀ v ∈ b.leafVars, v ∈ b.vars)
+    (hdisj : ∀ v, v ∈ a.vars → v ∉ b.vars)
+    (hb : SampleWF τ b ρ) (ha : ∀ pb, Samples τ b ρ pb → SampleWF τ a (pb ++ ρ))
+    (hign : ∀ pa : Env K, pa.map Prod.fst = a.vars → ∀ f ∈ b.pfuns, f.ignores pa) :
+    SampleWF τ (.prod a b) ρ := by
+  refine ⟨hb, fun pb hsb => ⟨ha pb hsb, fun pa hsa => ?_⟩⟩
+  have ka := samples_keys τ a _ pa hsa ua
+  have kb := samples_keys τ b ρ pb hsb ub
+  constructor
+  · refine envAgree_assoc a ρ pa pb (fun v hv => env_get_of_key pa v (by rw [ka]; exact hla v hv)) (fun v hv => ?_)
+    exact env_get_none_of_not_key pb v (by rw [kb]; exact hdisj v (hla v hv))
+  · refine envAgree_left pa b (hign pa ka) (fun v hv => ?_) pb ρ
+    refine env_get_none_of_not_key pa v ?_
+    rw [ka]; intro hva; exact hdisj v hva (hlb v hv)
+
+/-- a disc whose centre moves with the second factor's coordinate `s` -/
+noncomputable def exProdA : Dom ℝ := .circle "x" ⟨["s"], fun e => match e.get "s" with | some [s] => [s, 1] | _ => []⟩ (.const [3])
+/-- an interval in `s` -/
+noncomputable def exProdB : Dom ℝ := .interval "s" (.const [0]) (.const [2])
+
+/-- non-vacuity of the product rule and the packaged criterion: the dependent product `exProdA × exProdB` over ℝ -/
+example (pts : Env ℝ) (h : Samples ⟨0, 0, 0⟩ (.prod exProdA exProdB) [] pts) : mem (.prod exProdA exProdB) pts [] := by
+  refine samples_mem realLaws _ _ _ _ h (sampleWF_prod_of _ exProdA exProdB _ (by simp [exProdA, Dom.Uniform])
+    (by simp [exProdB, Dom.Uniform]) ?_ ?_ ?_ ?_ ?_ ?_)
+  · intro v hv; simpa [exProdA, Dom.leafVars, Dom.vars] using hv
+  · intro v hv; simpa [exProdB, Dom.leafVars, Dom.vars] using hv
+  · intro v hv; simp [exProdA, exProdB, Dom.vars] at hv ⊢; subst hv; decide
+  · refine ⟨fun _ _ => rfl, fun _ _ => rfl, fun l u hl hu => ?_⟩
+    simp only [PFun.const, List.cons.injEq, and_true] at hl hu; subst hl hu; norm_num
+  · intro pb _
+    refine ⟨fun x ρ => ?_, fun _ _ => rfl, fun rr hr => ?_⟩
+    · simp [Env.get, List.lookup]
+    · simp only [PFun.const, List.cons.injEq, and_true] at hr; subst hr; norm_num
+  · intro pa _ f hf
+    simp only [exProdB, Dom.pfuns, List.mem_cons, List.not_mem_nil, or_false] at hf
+    rcases hf with rfl | rfl <;> intro _ _ <;> rfl
+
 end TPV.Geom
